@@ -523,6 +523,47 @@ def _cube_layout(x):
             f"{chars(line2)}, {chars(dtitle)}⟩\n")
 
 
+@layout("mol2")
+def _mol2_layout(x):
+    from iodata.periodic import bond2num
+
+    ws = [f for fn, f in x.writes if fn == "dump_one"]
+    comment, blank, _mol, title, counts, counts0, _atom, atom, _bond, bond = ws
+    ai = [f for f in atom if f[0] == "int"]
+    af = [f for f in atom if f[0] == "fix"]
+    astr = [f for f in atom if f[0] == "str"]
+    res = [f[1] for f in atom if f[0] == "lit" and f[1].strip()][0]
+    if res != " " + res.strip() + " " or af[1][3:] != af[2][3:] or af[0][4] != af[1][4] or [f[2] for f in counts if f[0] == "int"] != [f[2] for f in counts0 if f[0] == "int"]:
+        raise LookupError("unexpected MOL2 atom/counts record")
+    ci = [f for f in counts if f[0] == "int"]
+    bi = [f for f in bond if f[0] == "int"]
+    bs = [f for f in bond if f[0] == "str"]
+    return (f"def mol2L : Mol2.Layout :=\n  ⟨{ci[0][2]}, {ci[1][2]}, {ai[0][2]}, {astr[0][2]}, {af[0][3]}, {af[1][3]}, {af[0][4]}, {astr[1][2]}, {ai[1][2]}, "
+            f"{chars(res.strip())}, {af[3][3]}, {af[3][4]}, {bi[0][2]}, {bi[1][2]}, {bs[0][2]},\n   {chars(comment[0][1])}, {chars(blank[0][1])}, "
+            f"{chars(_default_title(title[0][1]))}, {bond2num['un']}⟩\n")
+
+
+@layout("gromacs")
+def _gro_layout(x):
+    src = (engine.REPO / "iodata" / "formats" / "gromacs.py").read_text()
+    tree = ast.parse(src)
+    sl = [(a, b) for fn, t, a, b, i in x.slices if fn == "_helper_read_frame" and b is not None and t == "<expr>"]
+    if len(sl) != 3:
+        raise LookupError(f"GRO: expected three fixed slices (resnum, resname, atname), found {sl}")
+    starts = set()
+    for node in ast.walk(tree):
+        if (isinstance(node, ast.Call) and isinstance(node.func, ast.Attribute) and node.func.attr == "index"
+                and isinstance(node.func.value, ast.Name) and node.func.value.id == "line" and len(node.args) == 2
+                and isinstance(node.args[1], ast.Constant)):
+            starts.add(node.args[1].value)
+    if len(starts) != 1:
+        raise LookupError(f"GRO: start column of the position fields not found ({starts})")
+    # velocities optional: the velocity loop is guarded by a test on the rest of the line
+    opt = bool(re.search(r"if line\[20 \+ 3 \* width\s*:\]\.strip\(\) != \"\"", src))
+    pr = lambda p: f"({p[0]}, {p[1]})"  # noqa: E731
+    return f"def groL : Gro.Layout := ⟨{pr(sl[0])}, {pr(sl[1])}, {pr(sl[2])}, {next(iter(starts))}, {lb(opt)}⟩\n"
+
+
 def build_gen() -> str:
     out = [
         "import Iodata.Model.Fmt.Core",
